@@ -45,9 +45,13 @@ type onceAttached struct {
 	st *onceState
 }
 
-func (a *onceAttached) Wait(context.Context) error { <-a.st.r.exited; vs.Point("attached.Wait"); return nil }
-func (a *onceAttached) Kill(context.Context) error { a.st.r.exit(); return nil }
-func (a *onceAttached) ID() string                 { return "attached-1" }
+func (a *onceAttached) Wait(context.Context) error {
+	<-a.st.r.exited
+	vs.Point("attached.Wait")
+	return nil
+}
+func (a *onceAttached) Kill(context.Context) error                        { a.st.r.exit(); return nil }
+func (a *onceAttached) ID() string                                        { return "attached-1" }
 func (a *onceAttached) PluginToHost(n, ad string) (string, string, error) { return n, ad, nil }
 func (a *onceAttached) HostToPlugin(n, ad string) (string, string, error) { return n, ad, nil }
 
